@@ -1,5 +1,6 @@
 SPECIFICATION Spec
 CONSTANTS
+  Pre <- NoPre
   FailingGov = TRUE
   MaxHeight = 3
   MaxTx = 3
